@@ -66,9 +66,15 @@
  * Could be further improved with a lowpass filter.
  */
 static inline unsigned int
-sample(uint8_t *raw, int offs, int bpp, int endian)
+sample(uint8_t *raw, unsigned int offs, int bpp, int endian)
 {
-	unsigned char frac = offs;
+	unsigned char frac;
+
+	/* offs is a 16.16 fixed point number: with less precision the
+	   rounding error of d->step, accumulated over all FRC and
+	   payload bits, can exceed half a bit. */
+	offs >>= 8;
+	frac = offs;
 	int raw0, raw1;
 
 	switch (bpp) {
@@ -446,8 +452,8 @@ vbi_bit_slicer_init(vbi_bit_slicer *slicer,
 	slicer->thresh			= 105 << (THRESH_FRAC + gsh);
 	slicer->frc			= cri_frc & f_mask;
 	slicer->frc_bits		= frc_bits;
-	/* Payload bit distance in 1/256 raw samples. */
-	slicer->step			= (int)(sampling_rate * 256.0 / bit_rate);
+	/* Payload bit distance in 1/65536 raw samples. */
+	slicer->step			= (int)(sampling_rate * 65536.0 / bit_rate);
 
 	if (payload & 7) {
 		slicer->payload	= payload;
@@ -462,8 +468,8 @@ vbi_bit_slicer_init(vbi_bit_slicer *slicer,
 		slicer->endian--;
 	case VBI_MODULATION_NRZ_LSB:
 		slicer->phase_shift = (int)
-			(sampling_rate * 256.0 / cri_rate * .5
-			 + sampling_rate * 256.0 / bit_rate * .5 + 128);
+			(sampling_rate * 65536.0 / cri_rate * .5
+			 + sampling_rate * 65536.0 / bit_rate * .5 + 32768);
 		break;
 
 	case VBI_MODULATION_BIPHASE_MSB:
@@ -471,8 +477,8 @@ vbi_bit_slicer_init(vbi_bit_slicer *slicer,
 	case VBI_MODULATION_BIPHASE_LSB:
 		/* Phase shift between the NRZ modulated CRI and the rest */
 		slicer->phase_shift = (int)
-			(sampling_rate * 256.0 / cri_rate * .5
-			 + sampling_rate * 256.0 / bit_rate * .25 + 128);
+			(sampling_rate * 65536.0 / cri_rate * .5
+			 + sampling_rate * 65536.0 / bit_rate * .25 + 32768);
 		break;
 	}
 
@@ -485,7 +491,7 @@ vbi_bit_slicer_init(vbi_bit_slicer *slicer,
 
 		reach = (((long long) slicer->phase_shift
 			  + (long long) slicer->step
-			  * (payload + frc_bits - 1)) >> 8) + 1;
+			  * (payload + frc_bits - 1)) >> 16) + 1;
 
 		if (slicer->cri_bytes > raw_samples - reach)
 			slicer->cri_bytes = raw_samples - reach;
